@@ -324,7 +324,7 @@ def run_rand(spec, ctx):
             continue
         d = diff(snap(y), snap(z))
         if d:
-            ctx.violation(f"{tag}:second-read-differs:{d[0][0]}", case=case, diff=d[:3])
+            ctx.violation(f"{tag}:second-read-differs:{d[0][0].split(chr(91))[0].strip(chr(46))}", case=case, diff=d[:3])
 
 
 def norm_text(t):
